@@ -135,6 +135,14 @@ func (c *Ctx) File(p token.Pos) string {
 	return filepath.Base(c.Fset.Position(p).Filename)
 }
 
+// PhysFile returns the base name of the physical file holding pos (ignoring //line directives).
+func (c *Ctx) PhysFile(p token.Pos) string {
+	if f := c.Fset.File(p); f != nil {
+		return filepath.Base(f.Name())
+	}
+	return ""
+}
+
 // RelFile returns the repo-relative file of a position.
 func (c *Ctx) RelFile(p token.Pos) string {
 	pp := c.Fset.Position(p)
